@@ -25,6 +25,11 @@ func (s *Server) serveStream(ctx context.Context, r io.Reader, w io.Writer, req 
 		}
 		emptySchema := arrow.NewSchema(nil, nil)
 		s.logIPCWriteErr("error-response", req.Method, writeErrorResponse(w, emptySchema, handlerErr, s.serverID, req.RequestID, s.debugErrors))
+		// The client of a stream method writes its input stream before it
+		// reads anything, so it is already on the wire: drain it, exactly as
+		// on an init-handler failure below, or the next request is framed
+		// against the leftover ticks.
+		drainInputStream(r)
 		return handlerErr, nil
 	}
 
